@@ -268,6 +268,16 @@ def run(ck: Check, prog: Program) -> None:
             ck.finding('TWIN-BAGS', fa.qualname, f'{name}: {x[:90]}', fa.module.rel, fa.node.lineno,
                        f'the synchronous and asynchronous versions of {name} differ: {x}: for the same input the two halves can behave differently')
     ck.require('TWIN-BAGS', 'twin pairs', len(pairs), 16)
+    # SIZED-TRUTH: in either half, "is there a response?" must be an identity test: the response classes define __len__, so a
+    # truthiness test also rejects an empty / error-only batch response and the halves stop agreeing
+    from .sentinel import sized_truth_tests
+    for i_, (name, fs, fa, allow) in enumerate(pairs):
+        bp = sprog if i_ < n_server_pairs else prog
+        for g_ in (fs, fa):
+            for line, txt, why in sized_truth_tests(bp, g_):
+                ck.finding('TWIN-BAGS', g_.qualname, f'{name}: truthiness of a sized optional value: {txt[:40]}', g_.module.rel, line,
+                           f'`{txt}` tests truthiness where None-ness is meant: {why}; the twin uses an identity test, so the two halves differ '
+                           f'for such a value (one returns None, the other raises / returns the data)')
     for where, x in diffs:
         ck.finding('TWIN-FACTS', f'pjrpc.<{where}>', x[:100], 'pjrpc', 0, f'the synchronous and asynchronous halves differ in {where}: {x}')
 
